@@ -72,12 +72,30 @@ VerdictGcdN1(r) ==
   ELSE IF \E i \in AllIdx(r) : ~r.obs.flag[i] /\ Len(r.obs.facs[i]) # 0 THEN "NoFactorWhenSilent"
   ELSE "ok"
 
+\* the same check with the bound gcd_ref + off (off in -1, 0, 1), where gcd_ref is the expected gcd of key `ref`: not a power of two.
+\* gcd_i >= bound is decided where the bags decide it: equal bags (>= iff off <= 0), more or fewer 64-bit primes (a factor >= 2^63 apart)
+GeRef(r, i) == LET ei == Exp(r, i)
+                   ej == Exp(r, r.args.ref)
+               IN IF ei = ej THEN (IF r.args.off <= 0 THEN "ge" ELSE "lt")
+                  ELSE IF BigCount(ei) > BigCount(ej) THEN "ge"
+                  ELSE IF BigCount(ei) < BigCount(ej) THEN "lt" ELSE "open"
+VerdictGcdN1X(r) ==
+  IF r.raised # "none" THEN "Total"
+  ELSE IF Len(r.obs.flag) # Len(r.args.batch) THEN "ResultLength"
+  ELSE IF \E i \in AllIdx(r) : (GeRef(r, i) = "ge" /\ ~r.obs.flag[i]) \/ (GeRef(r, i) = "lt" /\ r.obs.flag[i]) THEN "N1FlagIffAtLeastBound"
+  ELSE IF r.obs.ret # (\E i \in AllIdx(r) : r.obs.flag[i]) THEN "RetIffSomeFlag"
+  ELSE IF \E i \in AllIdx(r) : r.obs.flag[i] /\
+            (Len(r.obs.facs[i]) # 1 \/ Norm(r.obs.facs[i][1]) # Exp(r, i)) THEN "N1FactorIsGcd"
+  ELSE IF \E i \in AllIdx(r) : ~r.obs.flag[i] /\ Len(r.obs.facs[i]) # 0 THEN "NoFactorWhenSilent"
+  ELSE "ok"
+
 Verdict(r) ==
   CASE r.ev = "tree" -> VerdictTree(r)
     [] r.ev = "fastprod" -> VerdictFastProd(r)
     [] r.ev = "gcd" -> VerdictGcd(r)
     [] r.ev = "checkgcd" -> VerdictCheckGcd(r)
     [] r.ev = "gcdn1" -> VerdictGcdN1(r)
+    [] r.ev = "gcdn1x" -> VerdictGcdN1X(r)
     [] OTHER -> "UnknownEvent"
 
 Init == tid = 1 /\ RegInit
